@@ -77,7 +77,7 @@ Definition flag_iff_strict_reparse_full_statement : Prop :=
    and so does the constructor of every proved class, at every fuel, on plain input. *)
 Theorem custom_free_run_mode_independent :
   forall vr ev w pattern_ok selectors_ok, vr_ref_flip_unreg vr = true ->
-  forall ids, closed_ok vr w ids = true ->
+  forall ids, closed_oki vr w ids = true ->
   forall fuel kid a a' interop kw vrefs o,
     mem_ustr kid ids = true -> plain_dict kw = true ->
     run vr ev w pattern_ok selectors_ok fuel (RConstruct kid a interop kw vrefs) = Ok o -> pval_has_custom o = false ->
@@ -90,7 +90,7 @@ Print Assumptions custom_free_run_mode_independent.
    object's own encoding succeeds.  Both directions; every fuel. *)
 Theorem flag_iff_strict_reparse_partial :
   forall vr ev w pattern_ok selectors_ok, vr_year_pad vr = true -> vr_ref_flip_unreg vr = true ->
-  forall ids, closed_ok vr w ids = true ->
+  forall ids, closed_oki vr w ids = true ->
   forall fuel kid interop kw vrefs o,
     mem_ustr kid ids = true -> plain_dict kw = true -> id_given w kid kw = true ->
     run vr ev w pattern_ok selectors_ok fuel (RConstruct kid true interop kw vrefs) = Ok o ->
@@ -109,7 +109,7 @@ Definition strict_custom_free_full_statement : Prop :=
     cf_obj w fuel kid o = true.
 
 Theorem strict_custom_free_partial :
-  forall vr ev w pattern_ok selectors_ok ids, closed_ok vr w ids = true ->
+  forall vr ev w pattern_ok selectors_ok ids, closed_oki vr w ids = true ->
   forall fuel kid interop kw vrefs o,
     mem_ustr kid ids = true -> plain_dict kw = true ->
     run vr ev w pattern_ok selectors_ok fuel (RConstruct kid false interop kw vrefs) = Ok o ->
@@ -119,7 +119,7 @@ Print Assumptions strict_custom_free_partial.
 
 (* ... and "always detected": in either mode an object returned with the flag off is custom-free in that sense *)
 Theorem unflagged_is_custom_free_partial :
-  forall vr ev w pattern_ok selectors_ok ids, closed_ok vr w ids = true -> vr_ref_flip_unreg vr = true ->
+  forall vr ev w pattern_ok selectors_ok ids, closed_oki vr w ids = true -> vr_ref_flip_unreg vr = true ->
   forall fuel kid a interop kw vrefs o,
     mem_ustr kid ids = true -> plain_dict kw = true ->
     run vr ev w pattern_ok selectors_ok fuel (RConstruct kid a interop kw vrefs) = Ok o -> pval_has_custom o = false ->
@@ -133,7 +133,7 @@ Print Assumptions unflagged_is_custom_free_partial.
    allow_custom=False parse of its own encoding succeeds.  Both directions; every fuel. *)
 Theorem flag_iff_strict_reparse_parse_partial :
   forall vr ev w pattern_ok selectors_ok, vr_year_pad vr = true -> vr_ref_flip_unreg vr = true ->
-  forall ids, closed_ok vr w ids = true -> registry_ok w = true ->
+  forall ids, closed_oki vr w ids = true -> registry_ok w = true ->
   forall pids, forallb (fun k => mem_ustr k ids) pids = true ->
     forallb (fun k => match find_class (wclasses w) k with Some c => parse_class_ok w c | None => false end) pids = true ->
   forall fuel interop d ci S dfl hc,
@@ -148,7 +148,7 @@ Print Assumptions flag_iff_strict_reparse_parse_partial.
 (* strict_custom_free at the level of stix2.parse, partial: what an allow_custom=False parse returns for a covered
    entry point is custom-free at every depth (Spec/CustomFree.v) *)
 Theorem strict_custom_free_parse_partial :
-  forall vr ev w pattern_ok selectors_ok ids, closed_ok vr w ids = true ->
+  forall vr ev w pattern_ok selectors_ok ids, closed_oki vr w ids = true ->
   forall pids, forallb (fun k => mem_ustr k ids) pids = true ->
   forall f interop d ci S dfl hc,
     plain_dict d = true -> mem_ustr ci pids = true ->
@@ -160,6 +160,11 @@ Print Assumptions strict_custom_free_parse_partial.
 (* the hypotheses are met by the repaired variant on the generated tables (class list recomputed each run) *)
 Theorem flag_theorem_applies_to_lib :
   vr_year_pad variant_repaired = true /\ vr_ref_flip_unreg variant_repaired = true /\
-  closed_ok variant_repaired lib lib_proved_ids = true.
-Proof. exact (conj eq_refl (conj eq_refl C01LibInstance.lib_proved_closed)). Qed.
+  closed_oki variant_repaired lib lib_proved_idsi = true /\ registry_ok lib = true /\
+  forallb (fun k => mem_ustr k lib_proved_idsi) lib_parse_idsi = true /\
+  forallb (fun k => match find_class (wclasses lib) k with Some c => parse_class_ok lib c | None => false end) lib_parse_idsi = true.
+Proof.
+  exact (conj eq_refl (conj eq_refl (conj C01LibInstance.lib_proved_closedi (conj C01LibInstance.lib_registry_ok
+          (conj C01LibInstance.lib_parse_subi C01LibInstance.lib_parse_oki))))).
+Qed.
 Print Assumptions flag_theorem_applies_to_lib.
